@@ -615,6 +615,7 @@ pub fn build_walker(
     log: &Log,
     mutator: &Rc<RefCell<Mutator>>,
     cwd: &str,
+    globs: &GlobCache,
 ) -> Result<BoxIt, String> {
     let w = &sc.walkers[wi];
     let ctx = Ctx {
@@ -649,7 +650,20 @@ pub fn build_walker(
                 return Err(format!("glob {:?} from base {:?} would leave the world", expr, w.base));
             }
             let text = glob_text(expr, *rooted, &world.root_text);
-            let glob = Glob::new(&text).map_err(|e| format!("glob {:?}: {}", text, e))?;
+            // Walks whose expressions are the same text are built from one `Glob` value, which then
+            // outlives them (a `Glob` is made to be reused); any other `Glob` is dropped as soon as
+            // its walk exists.
+            let shared = sc.walkers.iter().enumerate().any(|(k, o)| {
+                k != wi
+                    && matches!(&o.source, Source::Glob { expr: e, rooted: r } if glob_text(e, *r, &world.root_text) == text)
+            });
+            let glob = match globs.borrow().get(&text) {
+                Some(g) => g.clone(),
+                None => Rc::new(Glob::new(&text).map_err(|e| format!("glob {:?}: {}", text, e))?.into_owned()),
+            };
+            if shared {
+                globs.borrow_mut().insert(text.clone(), glob.clone());
+            }
             let it = glob.walk_with_behavior(base, beh);
             if w.erased {
                 build_erased(it, &w.layers, w.taps, &ctx, cwd)
@@ -665,6 +679,8 @@ pub fn build_walker(
     verif::set_entry_order(None);
     res
 }
+
+pub type GlobCache = RefCell<std::collections::HashMap<String, Rc<Glob<'static>>>>;
 
 pub struct Run {
     pub log: Vec<Ev>,
@@ -693,6 +709,7 @@ pub fn execute(sc: &Scenario, world: &World, budget: &[usize]) -> Run {
     let mut built = vec![false; sc.walkers.len()];
     let mut build_error: Option<String> = None;
     let cur_cwd: RefCell<String> = RefCell::new(sc.cwd.clone());
+    let globs: GlobCache = RefCell::new(std::collections::HashMap::new());
     let mut construct = |wi: usize, its: &mut Vec<Option<BoxIt>>, built: &mut Vec<bool>| {
         if built[wi] {
             return;
@@ -702,7 +719,7 @@ pub fn execute(sc: &Scenario, world: &World, budget: &[usize]) -> Run {
         if cwd != sc.cwd {
             log.borrow_mut().push(Ev::Built { w: wi, cwd: cwd.clone() });
         }
-        match guarded(|| build_walker(sc, wi, world, &log, &mutator, &cwd)) {
+        match guarded(|| build_walker(sc, wi, world, &log, &mutator, &cwd, &globs)) {
             Ok(Ok(it)) => its[wi] = Some(it),
             Ok(Err(e)) => build_error = Some(e),
             Err(p) => {
